@@ -212,10 +212,11 @@ Definition omem0 : omem :=
   mkOmem [absent; absent; absent] (fun _ => false) (fun _ => false) [] [].
 
 (* failures: bit 0 = outside every known class, bit 1 = class 1 (slow close), bit 2 = class 2
-   (failed substream id kept pending) *)
+   (failed substream id kept pending), bit 3 = class 3 (user Reject drops the open request) *)
 Definition F_GEN : N := 1.
 Definition F_SLOW : N := 2.
 Definition F_KEPT : N := 4.
+Definition F_REJ : N := 8.
 
 (* grammar of the user-visible events of one step, in order *)
 Fixpoint grammar (opened : peer -> bool) (gated : peer -> bool) (l : list uev) : (peer -> bool) * N :=
@@ -285,32 +286,44 @@ Definition check_step (c : cfg) (m : omem) (o : op) (x : sobs) : omem * N :=
      | HsIn _ true, Some (Validating _ ob IReading) => auto_accept c && negb (o_closed ob)
      | _, _ => false
      end) in
-  (* 4. a stream that was open is reported closed when the connection goes / the user closes it *)
+  (* 4. "when the connection to a peer is lost an open stream is reported closed" (also when the user
+     closes it). The report may be late only while the case keeps the Connection task's substream
+     close blocked (Gate / gated TaskDie: the environment of finding class 1); then it is due when the
+     case releases the close: after `Release p` the user may still see p as opened only if a stream
+     is really open. *)
   let cl :=
     match o with
     | ConnClosed _ => negb (is_open (o_ps pre)) || has_closed p (o_ev x) || gated_or p
     | CmdClose _ => negb (is_open (o_ps pre) && o_hopen pre) || has_closed p (o_ev x) || gated_or p
+    | Release _ => negb (opened' p) || is_open (o_ps post)
     | _ => true
     end in
-  (* 5. an open request is taken up or answered at once *)
+  (* 5. "a request to open a stream to a connected peer with no negotiation in progress is answered":
+     the request is taken up (outbound substream wanted) or answered at once. Not a request in the
+     sense of the text: the handle refuses the call because it still lists the peer as open
+     (open_substream returns PeerAlreadyExists: o_hopen); a negotiation, a dial or a stream is already
+     in progress (every other peer state: the command is ignored and the outcome of what is in
+     progress is the answer). A peer that is not connected is dialed first (CDial) or refused. *)
   let ans :=
     match o with
     | CmdOpen _ =>
         if o_hopen pre then true else
         match o_ps pre with
         | None => has_fail p (o_ev x) || existsb (fun cl => match cl with CDial _ => true | _ => false end) (o_calls x)
-        | Some (Closed None) => has_fail p (o_ev x) || in_progress (o_ps post)
+        | Some (Closed _) => has_fail p (o_ev x) || in_progress (o_ps post)
         | Some (VPending _) => has_fail p (o_ev x)
         | _ => true
         end
     | _ => true
     end in
-  (* 6. whoever gives up on an outbound substream the user knows about says so *)
+  (* 6. "... answered by exactly one of opened or open-failure": whoever gives up an outbound
+     substream the user asked for (or agreed to) says so: in progress -> still in progress, or Open with
+     NotificationStreamOpened, or NotificationStreamOpenFailure. The one exception in the code is the
+     user's own Reject of the peer's inbound substream: finding class 3. *)
   let leave :=
-    negb (in_progress (o_ps pre)) || in_progress (o_ps post) || is_open (o_ps post) ||
-    has_fail p (o_ev x) ||
-    match o with Validate _ false => true | _ => false end ||
-    (has_validate p (o_ev x) && o_hval pre) in
+    negb (in_progress (o_ps pre)) || in_progress (o_ps post) ||
+    (is_open (o_ps post) && has_opened p (o_ev x)) || has_fail p (o_ev x) in
+  let rej := match o with Validate _ false => true | _ => false end in
   (* 7. a substream id the protocol waits for is still owed by the transport *)
   let owed :=
     match waits_for (o_ps post) with
@@ -320,7 +333,8 @@ Definition check_step (c : cfg) (m : omem) (o : op) (x : sobs) : omem * N :=
     | None => 0
     end in
   (mkOmem (o_peers x) opened' gated req failed,
-   N.lor (flag (iso && acc && cl && ans && leave) F_GEN) (N.lor fg owed)).
+   N.lor (flag (iso && acc && cl && ans && (leave || rej)) F_GEN)
+         (N.lor (flag (leave || negb rej) F_REJ) (N.lor fg owed))).
 
 Fixpoint check_steps (c : cfg) (m : omem) (ops : list op) (tr : list sobs) : N :=
   match ops, tr with
@@ -344,7 +358,9 @@ Definition verdict (case trace : list N) : N :=
 
 Definition prop_ok (case trace : list N) : bool := verdict case trace =? 0.
 
-(* class 1: KNOWN_FINDINGS "slow close"; class 2: "failed substream id kept pending" *)
+(* class 1: KNOWN_FINDINGS "slow close"; class 2: "failed substream id kept pending"; class 3: "the
+   user's Reject drops the user's own open request without an answer" *)
 Definition known_class (case trace : list N) : N :=
   let v := verdict case trace in
-  if N.testbit v 0 then 0 else if N.testbit v 1 then 1 else if N.testbit v 2 then 2 else 0.
+  if N.testbit v 0 then 0 else if N.testbit v 1 then 1 else if N.testbit v 2 then 2
+  else if N.testbit v 3 then 3 else 0.
